@@ -376,3 +376,37 @@ pub mod ptr {
     #[verifier::external_body]
     pub fn eq<T>(a: &Thread, b: &Thread) -> (r: bool) ensures r == (tid(*a) == tid(*b)) { unimplemented!() }
 }
+
+// ---- records / variants and closures: objects whose FIELDS (upvars) are values
+// "none of the pointers held by the fields of this object points into a heap the receiver may not reference": established
+// by re-cloning every field with the cloner (the loop `*new = self.deep_clone_inner(old)?` over all fields)
+pub uninterp spec fn fields_ok<T>(p: GcPtr<T>) -> bool;
+impl<'gc> Cloner<'gc> {
+    // `self.deep_clone_ptr(p, |gc, data| { let ptr = gc.alloc(<Def over data's fields>)?; Ok((repr(ptr), ptr)) })`:
+    // visited hit  => Ok(Ok(the copy made earlier in this clone, whose fields were -- or are being -- cloned));
+    // visited miss => Ok(Err(new)) where new is a fresh object whose fields are still bit copies of the original's.
+    // (what deep_clone_ptr itself guarantees is proved on its body; this instance with its allocation closure is ASSUMED)
+    #[verifier::external_body]
+    pub fn deep_clone_ptr_data(&mut self, p: &GcPtr<DataStruct>) -> (r: Result<Result<ValueRepr, GcPtr<DataStruct>>, Error>)
+        ensures
+            final(self).receiver_generation == old(self).receiver_generation, visited_kept(old(self).visited@, final(self).visited@),
+            r is Ok && r->Ok_0 is Ok ==> r->Ok_0->Ok_0 is Data && fresh(r->Ok_0->Ok_0->Data_0) && fields_ok(r->Ok_0->Ok_0->Data_0),
+            r is Ok && r->Ok_0 is Err ==> fresh(r->Ok_0->Err_0),
+    { unimplemented!() }
+    #[verifier::external_body]
+    pub fn deep_clone_ptr_closure(&mut self, p: &GcPtr<ClosureData>) -> (r: Result<Result<ValueRepr, GcPtr<ClosureData>>, Error>)
+        ensures
+            final(self).receiver_generation == old(self).receiver_generation, visited_kept(old(self).visited@, final(self).visited@),
+            r is Ok && r->Ok_0 is Ok ==> r->Ok_0->Ok_0 is Closure && fresh(r->Ok_0->Ok_0->Closure_0) && fields_ok(r->Ok_0->Ok_0->Closure_0),
+            r is Ok && r->Ok_0 is Err ==> fresh(r->Ok_0->Err_0),
+    { unimplemented!() }
+    // `for (new, old) in new.<fields>.iter_mut().zip(&orig.<fields>) { *new = self.deep_clone_inner(old)?; }` (R-iter): every
+    // field of the new object is replaced by deep_clone_inner's result for the corresponding field of the original
+    #[verifier::external_body]
+    pub fn clone_fields_with_deep_clone_inner<T>(&mut self, new: &mut GcPtr<T>, orig: &GcPtr<T>) -> (r: Result<(), Error>)
+        ensures
+            final(self).receiver_generation == old(self).receiver_generation, visited_kept(old(self).visited@, final(self).visited@),
+            fresh(*final(new)) == fresh(*old(new)),
+            r is Ok ==> fields_ok(*final(new)),
+    { unimplemented!() }
+}
